@@ -27,7 +27,9 @@
 // document content.
 //
 // Don't-care zones: time / random / crypto template functions and bare keys/values (excluded
-// from the vocabulary: non-deterministic by sprig's documentation); mutating set/unset/merge;
+// from the vocabulary: non-deterministic by sprig's documentation); unset/merge* (set on .Values
+// IS used: it passes a trail from template file to template file, which is deterministic exactly
+// when templates execute in a fixed order);
 // Release.Info timestamps; the text of error messages and the partial debugging manifest attached
 // to a FAILED render (only error-vs-success agreement is demanded); getHostByName with EnableDNS
 // on (environment-dependent by definition); that an http(s) $ref makes validation fail.
@@ -59,7 +61,7 @@ func init() {
 			"distinct_nontrivial counts distinct chart shapes (subchart listing, depth, flags, template-file / notes / crd / hook buckets, number of construct kinds) of charts with >= 2 template files and (>= 1 map-ranging construct or >= 2 notes/CRD sources), plus one key per reach-out probe and per $ref spelling.",
 		Assumptions: []string{
 			"client-only dry-run action.Install is the `helm template` code path; engine.Render is the engine entry point",
-			"the template vocabulary excludes functions documented as non-deterministic (now, date*, rand*, uuidv4, gen*, htpasswd, shuffle, bare keys/values) and mutating set/unset/merge",
+			"the template vocabulary excludes functions documented as non-deterministic (now, date*, rand*, uuidv4, gen*, htpasswd, shuffle, bare keys/values); `set` on .Values is used only to pass a trail from template to template (deterministic under a fixed execution order)",
 			"a difference between renders made in identical state is attributed to non-determinism; environment/cwd/reload dependence is only claimed after 20 confirmation renders in the changed state agree with each other, concurrency dependence only after 128 sequential renders never produce the deviating variant",
 			"strace sees every open/openat/openat2/creat/socket/connect of the worker and its threads (-f); paths under /proc, /sys, /dev/null, /dev/urandom, /etc/localtime and zoneinfo are Go runtime accesses",
 		},
